@@ -138,19 +138,35 @@ def closedArg (N : List String) : Arg → Bool
 /-- the names compared by the guard of a definition -/
 def guardParams (d : MixinDef) : List String := d.guard.flatten.map (·.param)
 
+/-- arguments that are known without evaluation -/
+def staticArgs : List Arg → Option (List Value)
+  | [] => some []
+  | .val v :: r => if hasRef v then none else (staticArgs r).map (v :: ·)
+  | .arith _ _ :: _ => none
+
+/-- with these arguments, `d` either does not bind or binds the name `p` to a number -/
+def guardDecided (d : MixinDef) (vs : List Value) (p : String) : Bool :=
+  match bindParams d.params vs with
+  | some f => ((Frame.get f p).bind numOf).isSome
+  | none => true
+
 mutual
 /-- `N` are the names bound by the frame the items are evaluated in.  Values and arguments mention
-    names of `N` only.  A call may only reach definitions whose guards compare names of `N` or names
-    that `fr` (the frame being substituted away further down the stack) does not bind: when the value
-    bound to a guard parameter is not a number, `condHolds` falls back on a lookup of that name in the
-    caller's scope. -/
+    names of `N` only.  A call may only reach definitions whose guards compare names of `N`, or names
+    that `fr` (the frame being substituted away further down the stack) does not bind, or names that
+    the arguments, when they are all literal, bind to numbers: when the value bound to a guard
+    parameter is not a number, `condHolds` falls back on a lookup of that name in the caller's
+    scope. -/
 def closedItem (tbl : Table) (fr : Frame) (N : List String) : Item → Bool
   | .decl _ v => refsIn N v
   | .rule _ body => closedItems tbl fr N body
   | .call name args =>
       args.all (closedArg N) &&
       (tbl.candidates name).all (fun d =>
-        (guardParams d).all (fun p => N.contains p || (Frame.get fr p).isNone))
+        (guardParams d).all (fun p => N.contains p || (Frame.get fr p).isNone ||
+          (match staticArgs args with
+           | some vs => guardDecided d vs p
+           | none => false)))
 def closedItems (tbl : Table) (fr : Frame) (N : List String) : List Item → Bool
   | [] => true
   | i :: r => closedItem tbl fr N i && closedItems tbl fr N r
@@ -170,18 +186,6 @@ def ClosedBodies (tbl : Table) (fr : Frame) : Bool :=
   tbl.blocks.all (fun nb => closedItems tbl fr [] nb.2)
 
 /-! ### side condition on the inlined body -/
-
-/-- arguments that are known without evaluation -/
-def staticArgs : List Arg → Option (List Value)
-  | [] => some []
-  | .val v :: r => if hasRef v then none else (staticArgs r).map (v :: ·)
-  | .arith _ _ :: _ => none
-
-/-- with these arguments, `d` either does not bind or binds the name `p` to a number -/
-def guardDecided (d : MixinDef) (vs : List Value) (p : String) : Bool :=
-  match bindParams d.params vs with
-  | some f => ((Frame.get f p).bind numOf).isSome
-  | none => true
 
 /-- a token-list argument with a variable in it is exactly `@n` (a longer one is bound unevaluated
     by `evalArg`, and the callee would then read the caller's frame); `@p + k` with `@p` bound in `fr`
